@@ -121,7 +121,7 @@ def opPrimesIter : Handler := fun args impl =>
   | _ => bad
 
 def ops : List (String × Handler) :=
-  [("inv", opInv), ("zmod", opZmod), ("pp", opPP), ("ispp", opIsPP), ("kron", opKron),
+  [("inv", opInv), ("zmod", opZmod), ("zmod.i64", opZmod), ("zmod.i128", opZmod), ("pp", opPP), ("ispp", opIsPP), ("kron", opKron),
    ("kronrow", opKronRow), ("primes", opPrimes), ("primesiter", opPrimesIter)]
 
 end NTV.Driver.C19
